@@ -5,6 +5,7 @@ package interp
 
 import (
 	"fmt"
+	"sync"
 	"strings"
 	"go/token"
 	"go/types"
@@ -54,6 +55,9 @@ type interpreter struct {
 	journalOn   bool
 	quiet       bool
 	formatOpaque bool
+	extCache     map[*ssa.Function]extEntry2
+	infoCache    map[*ssa.Function]*funcInfo
+	setupDone    map[string]bool
 	mapOrderMode bool
 	mapOrderMax  int
 	permCnt      int
@@ -83,7 +87,8 @@ type frame struct {
 	caller           *frame
 	fn               *ssa.Function
 	block, prevBlock *ssa.BasicBlock
-	env              map[ssa.Value]value // dynamic values of SSA variables
+	info             *funcInfo
+	regs             []value // dynamic values of SSA variables, indexed by info.idx
 	locals           []value
 	defers           *deferred
 	result           value
@@ -108,6 +113,55 @@ func (i *interpreter) targetStack() string {
 	return sb.String()
 }
 
+// funcInfo numbers the SSA values of a function (shared, immutable).
+type funcInfo struct {
+	idx    map[ssa.Value]int32
+	n      int
+	consts map[*ssa.Const]value
+}
+
+var funcInfos sync.Map // *ssa.Function -> *funcInfo
+
+func (i *interpreter) infoFor(fn *ssa.Function) *funcInfo {
+	if fi, ok := i.infoCache[fn]; ok {
+		return fi
+	}
+	if v, ok := funcInfos.Load(fn); ok {
+		i.infoCache[fn] = v.(*funcInfo)
+		return v.(*funcInfo)
+	}
+	fi := &funcInfo{idx: map[ssa.Value]int32{}, consts: map[*ssa.Const]value{}}
+	add := func(v ssa.Value) {
+		if _, ok := fi.idx[v]; !ok {
+			fi.idx[v] = int32(fi.n)
+			fi.n++
+		}
+	}
+	for _, p := range fn.Params {
+		add(p)
+	}
+	for _, fv := range fn.FreeVars {
+		add(fv)
+	}
+	for _, l := range fn.Locals {
+		add(l)
+	}
+	for _, b := range fn.Blocks {
+		for _, ins := range b.Instrs {
+			if v, ok := ins.(ssa.Value); ok {
+				add(v)
+			}
+		}
+	}
+	v, _ := funcInfos.LoadOrStore(fn, fi)
+	i.infoCache[fn] = v.(*funcInfo)
+	return v.(*funcInfo)
+}
+
+func (fr *frame) set(key ssa.Value, v value) {
+	fr.regs[fr.info.idx[key]] = v
+}
+
 func (fr *frame) get(key ssa.Value) value {
 	switch key := key.(type) {
 	case nil:
@@ -123,8 +177,8 @@ func (fr *frame) get(key ssa.Value) value {
 			return r
 		}
 	}
-	if r, ok := fr.env[key]; ok {
-		return r
+	if ix, ok := fr.info.idx[key]; ok {
+		return fr.regs[ix]
 	}
 	panic(fmt.Sprintf("get: no value for %T: %v", key, key.Name()))
 }
@@ -194,35 +248,35 @@ func visitInstr(fr *frame, instr ssa.Instruction) continuation {
 		// no-op
 
 	case *ssa.UnOp:
-		fr.env[instr] = unop(fr, instr, fr.get(instr.X))
+		fr.set(instr, unop(fr, instr, fr.get(instr.X)))
 
 	case *ssa.BinOp:
-		fr.env[instr] = binop(fr, instr.Op, instr.X.Type(), fr.get(instr.X), fr.get(instr.Y), instr.Pos())
+		fr.set(instr, binop(fr, instr.Op, instr.X.Type(), fr.get(instr.X), fr.get(instr.Y), instr.Pos()))
 
 	case *ssa.Call:
 		fn, args := prepareCall(fr, &instr.Call)
-		fr.env[instr] = call(fr.i, fr, instr.Pos(), fn, args)
+		fr.set(instr, call(fr.i, fr, instr.Pos(), fn, args))
 
 	case *ssa.ChangeInterface:
-		fr.env[instr] = fr.get(instr.X)
+		fr.set(instr, fr.get(instr.X))
 
 	case *ssa.ChangeType:
-		fr.env[instr] = fr.get(instr.X) // (can't fail)
+		fr.set(instr, fr.get(instr.X)) // (can't fail)
 
 	case *ssa.Convert:
-		fr.env[instr] = conv(fr, instr.Type(), instr.X.Type(), fr.get(instr.X))
+		fr.set(instr, conv(fr, instr.Type(), instr.X.Type(), fr.get(instr.X)))
 
 	case *ssa.SliceToArrayPointer:
-		fr.env[instr] = sliceToArrayPointer(instr.Type(), instr.X.Type(), fr.get(instr.X))
+		fr.set(instr, sliceToArrayPointer(instr.Type(), instr.X.Type(), fr.get(instr.X)))
 
 	case *ssa.MakeInterface:
-		fr.env[instr] = iface{t: instr.X.Type(), v: fr.get(instr.X)}
+		fr.set(instr, iface{t: instr.X.Type(), v: fr.get(instr.X)})
 
 	case *ssa.Extract:
-		fr.env[instr] = fr.get(instr.Tuple).(tuple)[instr.Index]
+		fr.set(instr, fr.get(instr.Tuple).(tuple)[instr.Index])
 
 	case *ssa.Slice:
-		fr.env[instr] = fr.i.slice(fr, fr.get(instr.X), fr.get(instr.Low), fr.get(instr.High), fr.get(instr.Max), instr.Pos())
+		fr.set(instr, fr.i.slice(fr, fr.get(instr.X), fr.get(instr.Low), fr.get(instr.High), fr.get(instr.Max), instr.Pos()))
 
 	case *ssa.Return:
 		switch len(instr.Results) {
@@ -280,17 +334,17 @@ func visitInstr(fr *frame, instr ssa.Instruction) continuation {
 		unsupported("go statement at %s", fr.i.prog.Fset.Position(instr.Pos()))
 
 	case *ssa.MakeChan:
-		fr.env[instr] = make(chan value, asInt64(fr.get(instr.Size)))
+		fr.set(instr, make(chan value, asInt64(fr.get(instr.Size))))
 
 	case *ssa.Alloc:
 		var addr *value
 		if instr.Heap {
 			// new
 			addr = new(value)
-			fr.env[instr] = addr
+			fr.set(instr, addr)
 		} else {
 			// local
-			addr = fr.env[instr].(*value)
+			addr = fr.regs[fr.info.idx[instr]].(*value)
 		}
 		*addr = zero(mustDeref(instr.Type()))
 
@@ -305,7 +359,7 @@ func visitInstr(fr *frame, instr ssa.Instruction) continuation {
 		for i := range slice {
 			slice[i] = zero(tElt)
 		}
-		fr.env[instr] = slice[:lenv]
+		fr.set(instr, slice[:lenv])
 
 	case *ssa.MakeMap:
 		var reserve int64
@@ -315,13 +369,13 @@ func visitInstr(fr *frame, instr ssa.Instruction) continuation {
 		if !fitsInt(reserve, fr.i.sizes) {
 			panic(fmt.Sprintf("ssa.MakeMap.Reserve value %d does not fit in int", reserve))
 		}
-		fr.env[instr] = makeMap(instr.Type().Underlying().(*types.Map).Key(), reserve)
+		fr.set(instr, makeMap(instr.Type().Underlying().(*types.Map).Key(), reserve))
 
 	case *ssa.Range:
-		fr.env[instr] = rangeIter(fr, fr.get(instr.X))
+		fr.set(instr, rangeIter(fr, fr.get(instr.X)))
 
 	case *ssa.Next:
-		fr.env[instr] = fr.get(instr.Iter).(iter).next()
+		fr.set(instr, fr.get(instr.Iter).(iter).next())
 
 	case *ssa.FieldAddr:
 		switch x := fr.get(instr.X).(type) {
@@ -329,24 +383,24 @@ func visitInstr(fr *frame, instr ssa.Instruction) continuation {
 			if x == nil {
 				panic(fr.i.runtimeError("invalid memory address or nil pointer dereference"))
 			}
-			fr.env[instr] = &(*x).(structure)[instr.Field]
+			fr.set(instr, &(*x).(structure)[instr.Field])
 		case symptr:
-			fr.env[instr] = symptr{base: x.base, idx: x.idx, path: append(append([]int{}, x.path...), instr.Field)}
+			fr.set(instr, symptr{base: x.base, idx: x.idx, path: append(append([]int{}, x.path...), instr.Field)})
 		default:
 			panic(fmt.Sprintf("unexpected x type in FieldAddr: %T", x))
 		}
 
 	case *ssa.Field:
-		fr.env[instr] = fr.get(instr.X).(structure)[instr.Field]
+		fr.set(instr, fr.get(instr.X).(structure)[instr.Field])
 
 	case *ssa.IndexAddr:
-		fr.env[instr] = fr.i.indexAddr(fr, fr.get(instr.X), fr.get(instr.Index), instr.Index.Type(), instr.Pos())
+		fr.set(instr, fr.i.indexAddr(fr, fr.get(instr.X), fr.get(instr.Index), instr.Index.Type(), instr.Pos()))
 
 	case *ssa.Index:
-		fr.env[instr] = fr.i.index(fr, fr.get(instr.X), fr.get(instr.Index), instr.Index.Type(), instr.Pos())
+		fr.set(instr, fr.i.index(fr, fr.get(instr.X), fr.get(instr.Index), instr.Index.Type(), instr.Pos()))
 
 	case *ssa.Lookup:
-		fr.env[instr] = lookup(fr, instr, fr.get(instr.X), fr.get(instr.Index))
+		fr.set(instr, lookup(fr, instr, fr.get(instr.X), fr.get(instr.Index)))
 
 	case *ssa.MapUpdate:
 		m := fr.get(instr.Map)
@@ -360,14 +414,14 @@ func visitInstr(fr *frame, instr ssa.Instruction) continuation {
 		}
 
 	case *ssa.TypeAssert:
-		fr.env[instr] = typeAssert(instr, fr.get(instr.X).(iface))
+		fr.set(instr, typeAssert(instr, fr.get(instr.X).(iface)))
 
 	case *ssa.MakeClosure:
 		var bindings []value
 		for _, binding := range instr.Bindings {
 			bindings = append(bindings, fr.get(binding))
 		}
-		fr.env[instr] = &closure{instr.Fn.(*ssa.Function), bindings}
+		fr.set(instr, &closure{instr.Fn.(*ssa.Function), bindings})
 
 	case *ssa.Phi:
 		panic("unreachable") // phis are processed at block entry
@@ -413,7 +467,7 @@ func visitInstr(fr *frame, instr ssa.Instruction) continuation {
 				r = append(r, v)
 			}
 		}
-		fr.env[instr] = r
+		fr.set(instr, r)
 
 	default:
 		panic(fmt.Sprintf("unexpected instruction: %T", instr))
@@ -527,18 +581,19 @@ func callSSA(i *interpreter, caller *frame, callpos token.Pos, fn *ssa.Function,
 		panic("interp requires ssa.BuilderMode to include InstantiateGenerics to execute generics")
 	}
 
-	fr.env = make(map[ssa.Value]value)
+	fr.info = i.infoFor(fn)
+	fr.regs = make([]value, fr.info.n)
 	fr.block = fn.Blocks[0]
 	fr.locals = make([]value, len(fn.Locals))
 	for i, l := range fn.Locals {
 		fr.locals[i] = zero(mustDeref(l.Type()))
-		fr.env[l] = &fr.locals[i]
+		fr.regs[fr.info.idx[l]] = &fr.locals[i]
 	}
 	for i, p := range fn.Params {
-		fr.env[p] = args[i]
+		fr.regs[fr.info.idx[p]] = args[i]
 	}
 	for i, fv := range fn.FreeVars {
-		fr.env[fv] = env[i]
+		fr.regs[fr.info.idx[fv]] = env[i]
 	}
 	saved := i.cur
 	i.cur = fr
@@ -650,7 +705,7 @@ func executePhis(fr *frame) []ssa.Instruction {
 			fr.phitemps = append(fr.phitemps, fr.get(phi.Edges[predIndex]))
 		}
 		for i, phi := range phis {
-			fr.env[phi.(*ssa.Phi)] = fr.phitemps[i]
+			fr.set(phi.(*ssa.Phi), fr.phitemps[i])
 		}
 	}
 	return nonPhis
